@@ -273,6 +273,7 @@ Inductive node :=
 | NBool (b : bool)
 | NStr (s : string)
 | NNone
+| NOther (descr : string)                                       (* a fixed value no branch of the walk applies to *)
 | NTuple (mid : Z) (members : list (string * node))             (* TuplePrior *)
 | NBinop (mid : Z) (cname ln rn : string) (l r : node)          (* CompoundPrior; ln/rn = attribute names taken from caller frames *)
 | NUnop (mid : Z) (cname pn : string) (a : node)                (* ModifiedPrior *)
@@ -310,6 +311,7 @@ Fixpoint reify (n : node) : obj :=
   | NBool b => OBool b
   | NStr s => OStr s
   | NNone => ONone
+  | NOther d => OOther d false
   | NTuple mid members =>
       OInst "TuplePrior" info_mo
         (("id", OInt mid) ::
@@ -413,7 +415,7 @@ Fixpoint reload (n : node) : option node :=
   | NPrior pid fam lo hi mean sigma =>
       (* without its own dict(), Prior.dict() writes no mean/sigma and the constructor call fails *)
       if is_log_gaussian fam && negb log_gaussian_dict then None else Some n
-  | NFloat _ | NInt _ | NBool _ | NStr _ | NNone => Some n
+  | NFloat _ | NInt _ | NBool _ | NStr _ | NNone | NOther _ => Some n
   | NTuple mid ms =>
       match all_some ((fix go (l : list (string * node)) : list (string * option node) :=
                          match l with [] => [] | kv :: r => match kv with (k, v) => (k, reload v) :: go r end end) ms) with
